@@ -313,3 +313,24 @@ def run(ctx):
         if s.kind == 'rng':
             ctx.ob(False, 'gen_range over a possibly empty range in %s: %s' % (short(s.view.path), s.what), 'rng|' + short(s.view.path), loc=s.loc())
     ctx.note('time-arithmetic/rng sites without a bound: %d' % nt)
+
+
+    # ------------------------------------------------------------ R-C11-9 (added after seed C11-2)
+    ctx.rule('R-C11-9', 'T3 must-effects', 'an error is scoped to its connection: opening a connection unconditionally returns the decoder to its initial state (also out of the latched error state) and clears the per-connection engine state, so a conforming server on the next connection is not reported as violating the protocol')
+    rc = ctx.fn('Decoder::reset_for_new_connection')
+    eff = prims.must_field_effects(F, rc)
+    want = {'state': 'DecoderState::ReadPacketType{}', 'scratch': 'clear()', 'first_byte': 'Option::None{}', 'remaining_length': 'Option::None{}'}
+    for f, w in sorted(want.items()):
+        ctx.ob(w in eff.get(f, set()), 'Decoder::reset_for_new_connection performs `%s := %s` on every path (found %s)' % (f, w, sorted(eff.get(f, []))), 'scope|decoder|' + f, loc=rc.loc())
+    dfields = {x['name'] for x in F.adt('decode::Decoder')['variants'][0]['fields']}
+    ctx.ob(dfields <= set(want), 'every field of the decoder is covered by that reset (fields: %s)' % sorted(dfields), 'scope|decoder|coverage', loc=rc.loc())
+    op = ctx.fn('ProtocolState::handle_network_event_connection_opened')
+    oks = [b for b, e in prims.ret_variants(op) if show(e).startswith('Result::Ok')]
+    calls_ = [c for c in op.calls('Decoder::reset_for_new_connection') if show(c.arg(0)) == 'self.decoder']
+    ok = bool(oks) and len(calls_) == 1
+    if ok:
+        seen = op.reach([0], avoid=[calls_[0].bb])
+        ok = not any(b in seen for b in oks)
+    ctx.ob(ok, 'every successful connection-opened event has reset the engine\'s decoder', 'scope|opened-resets-decoder', loc=op.loc())
+    lt = [(i, show(rve)) for (i, s_, pe, rve) in ctx.fn('Decoder::decode_bytes').field_writes() if show(pe) == 'self.state']
+    ctx.ob(any(x == 'DecoderState::TerminalError{}' for i, x in lt), 'the decoder latches its error state (so the reset above is what ends it)', 'scope|latch', loc=rc.loc())
